@@ -11,7 +11,7 @@ Grammar of an expression-class body (anything else raises TranslateError):
   COND  := self.is_linear | self.<sub>.is_linear          <sub> in left, right, operator, functional
   expr  := self | self.<sub> | NAME (a local assigned before)
          | self.<sub>.derivative(PT)
-         | OperatorSum(expr, expr, self.__tmp*...) | OperatorComp(expr, expr, self.__tmp*...)
+         | OperatorSum(expr, expr, self.__tmp*..., tmp*=self.__tmp*...) | OperatorComp(expr, expr, self.__tmp*...)   (scratch elements: no meaning)
          | FunctionalLeftVectorMult(expr, self.vector)
          | self.scalar * expr | expr * self.scalar | self.vector * expr | expr * self.vector
          | self.<sub>(x) * expr | expr + expr
@@ -119,7 +119,9 @@ class ExprTr(object):
             if (isinstance(f, ast.Attribute) and f.attr == 'derivative' and self.sub(f.value)
                     and len(node.args) == 1 and not node.keywords):
                 return '(DDeriv %s %s)' % (self.sub(f.value), self.pt(node.args[0]))
-            if isinstance(f, ast.Name) and f.id in ('OperatorSum', 'OperatorComp') and not node.keywords \
+            if isinstance(f, ast.Name) and f.id in ('OperatorSum', 'OperatorComp') \
+                    and all(k.arg and k.arg.startswith('tmp') and is_self_attr(k.value)
+                            and k.value.attr.startswith('__tmp') for k in node.keywords) \
                     and len(node.args) >= 2 and all(is_self_attr(a) and a.attr.startswith('__tmp') for a in node.args[2:]):
                 return '(DCtor2 %s %s %s)' % ('KSum' if f.id == 'OperatorSum' else 'KComp',
                                               self.expr(node.args[0], env), self.expr(node.args[1], env))
